@@ -658,6 +658,7 @@ def rule_OA(run: Run) -> RuleResult:
         import ast as _ast
         from . import astu as _astu
         calls = {}
+        issuers = set()
         for op in OPS:
             owner, fn = cls.find_method(op)
             if owner is not cls and owner.name in ("Evaluatable", "Cacheable", "Validatable", "Explainable"):
@@ -686,6 +687,17 @@ def rule_OA(run: Run) -> RuleResult:
                                     if isinstance(cv.func, _ast.Attribute) and isinstance(cv.func.value, _ast.Name) and cv.func.value.id == sps[0] and cv.func.attr == op \
                                             and len(cv.args) == 1 and isinstance(cv.args[0], _ast.Name) and cv.args[0].id == sps[1] and not cv.keywords:
                                         t = "'<op>'"
+                        # a class handed over (which request to issue, which error to raise) says what is asked, not of what
+                        if isinstance(a2, _ast.Name):
+                            r_k = run.repo.resolve_name(owner.module, a2.id)
+                            if r_k and r_k[0] == "class":
+                                t = "'<kind>'"
+                                issuers.add(c.func.attr)
+                        # what the helper is to answer when there is nothing to ask (None, an empty set, the identity function): a
+                        # positional constant that differs between the operations as their results do
+                        if i_a < len(c.args) and (t in ("None", "set()", "frozenset()", "{}", "[]", "()", "0", "''", "False", "True")
+                                                  or (isinstance(a2, _ast.Name) and (run.repo.resolve_name(owner.module, a2.id) or ("",))[0] == "func")):
+                            t = "<neutral>"
                         t = t.replace(pname, "<options>")
                         if i_a >= len(c.args):
                             t = f"{c.keywords[i_a - len(c.args)].arg}={t}"
@@ -704,6 +716,13 @@ def rule_OA(run: Run) -> RuleResult:
                     continue
                 f, ln = _meth_loc(run, cls, op)
                 ok = forms == ref_forms
+                if not ok and helper in issuers:
+                    # a helper that issues the request it is told to: evaluate may hand it more (the value to store); an inspection
+                    # method hands it the same positional arguments and no keyword evaluate does not
+                    def _split(form):
+                        pos_ = tuple(a_ for a_ in form[0] if "=" not in a_.split("(")[0])
+                        return pos_, {a_ for a_ in form[0] if "=" in a_.split("(")[0]}
+                    ok = all(any(_split(fm)[0] == _split(rf)[0] and _split(fm)[1] <= _split(rf)[1] for rf in ref_forms) for fm in forms)
                 res.add(f"{cls.qualname}:{op}:self.{helper}(...) called as in evaluate", ok, f, ln,
                         f"{cls.name}.{op} calls self.{helper}{sorted(forms)}, evaluate calls self.{helper}{sorted(ref_forms)}",
                         "a selector called with other arguments in an inspection method inspects something else than what is evaluated "
